@@ -371,3 +371,34 @@ def r12j(F):
 	return positional.check_constant_slots(F, '12.j', W(L + 'ln::channelmanager::ChannelManager'), '<lightning::ln::channelmanager::ChannelManagerData as lightning::util::ser::ReadableArgs>::read', 'ChannelManager', 10)
 
 RULES.append(('12.j', 'ChannelManager positional section: slots pair by type; restored fields are not written as constants', r12j))
+
+
+def r12k(F):
+	"""legacy getter closures of TLV enum tables (`(n, field, (legacy, .., |us| ..))`) select on the variant only: a getter that also tests
+	another field makes the persistence of its field conditional on that other field's current value"""
+	out = []
+	n = 0
+	for name in sorted(F.fns):
+		m = re.match(r'^<(lightning::[^ ]+) as lightning::util::ser::Writeable>::write::\{closure#\d+\}$', name)
+		if not m:
+			continue
+		try:
+			fu = F.func(name)
+		except AnchorMissing:
+			continue
+		adt = m.group(1).rsplit('::', 1)[-1]
+		live = fu.reach([0])
+		discs = [(st[0], (fu.locals[st[2][1][0]].get('ty') or '') if all(x == '*' for x in st[2][1][1:]) else 'field %s' % place_str(st[2][1], fu)) for bi, si, st in fu.stmts() if st[2][0] == 'disc' and bi in live]
+		own = [d for d in discs if adt in d[1] and not d[1].startswith('field ')]
+		if not own:
+			continue
+		n += 1
+		other = [d for d in discs if d not in own]
+		ok = not other
+		if not ok or n <= 40:
+			out.append(Result('12.k', ok, ('ok:' if ok else 'conditional:') + 'getter-selects-variant-only@%s%s' % (adt, name[name.rindex('::'):]), '%s writer getter %s tests only the variant%s' % (adt, name[name.rindex('::') + 2:], '' if ok else '; it also tests %s (line %s): the field it returns is dropped from the serialization whenever that other field has the "wrong" value' % ([o[1][:60] for o in other], other[0][0])), len(discs), where=F.where(name)))
+	if n < 10:
+		out.append(Result('12.k', False, 'floor:legacy-getters', 'only %d legacy getter closures found (expected >= 10)' % n, n))
+	return out
+
+RULES.append(('12.k', 'TLV enum legacy getters select on the variant only', r12k))
